@@ -1260,6 +1260,20 @@ def _fresh_object(ctx, f, e, depth=0, at=None):
         k, tg = ctx.r.resolve_call(f, e)
         if k == "ctor":
             return "fresh"
+        # a class picked from a table of classes (`CLASSES.get(kind)` / `CLASSES[kind]`, values all repo classes) and called
+        if isinstance(e.func, ast.Name):
+            from .shared import single_def
+
+            pick = single_def(ctx, f, e.func.id)
+            tab = None
+            if isinstance(pick, ast.Call) and isinstance(pick.func, ast.Attribute) and pick.func.attr == "get":
+                tab = pick.func.value
+            elif isinstance(pick, ast.Subscript):
+                tab = pick.value
+            if isinstance(tab, ast.Name):
+                d = ctx.m.consts.get(f.rel, {}).get(tab.id)
+                if isinstance(d, ast.Dict) and d.values and all(isinstance(v, ast.Name) and ctx.m.resolve_class_name(f.rel, v.id) for v in d.values):
+                    return "fresh"
         if k in ("nested", "module", "import", "typed") and tg and depth < 3:
             res = set()
             for t in tg:
